@@ -20,6 +20,7 @@ import (
 	"path/filepath"
 	"regexp"
 	"runtime"
+	"runtime/debug"
 	"sort"
 	"strconv"
 	"strings"
@@ -29,6 +30,11 @@ import (
 
 	"pgregory.net/rapid"
 )
+
+// Runaway recursion in a decoder ends in the runtime's fatal "goroutine stack exceeds N-byte limit".
+// With the default 1 GB limit that takes minutes; no decoder here needs more than a few KB of stack,
+// so the limit is lowered and the death (attributed by the driver's trace re-run) arrives in seconds.
+func init() { debug.SetMaxStack(64 << 20) }
 
 // Hex is a byte slice that is rendered as a hex string in JSON (replay files,
 // samples) so that cases are readable.
@@ -143,8 +149,22 @@ func Tier() string {
 
 func Thorough() bool { return Tier() == "thorough" }
 
-// N picks a case count by tier.
+// N picks a case count by tier. The thorough figure written at a call site is the per-shard base;
+// it is multiplied by VERIF_THOROUGH_SCALE (default 4) so that the depth of the whole thorough tier
+// can be raised or lowered in one place without touching the sub-checks.
 func N(quick, thorough int) int {
+	if Thorough() {
+		k := 4
+		if v, err := strconv.Atoi(os.Getenv("VERIF_THOROUGH_SCALE")); err == nil && v >= 1 && v <= 1000 {
+			k = v
+		}
+		return thorough * k
+	}
+	return quick
+}
+
+// Size picks a size/depth/step parameter by tier (not scaled: it bounds a space, it is not a count).
+func Size(quick, thorough int) int {
 	if Thorough() {
 		return thorough
 	}
